@@ -16,6 +16,11 @@
 //       -> baselines on the main thread, then <threads> threads released by a barrier; thread t makes, <iterations> times,
 //          the calls of the whole batch starting at a different offset (so different calls overlap), comparing with the baselines:
 //          SAME\t<number of threaded calls>\t||\t<baseline 0>\t||\t<baseline 1>...   or   DIFF\t<case index>\t<baseline>\t||\t<other>
+//   TC\t<threads>\t<iterations>\t<J|C>:<schema hex>:<doc hex>\t...                (a history group, no warm-up)
+//       -> NO call is made before the threads start: <threads> threads are released by a barrier, thread t walks the batch
+//          <iterations> times from offset t (so every call of the group is some thread's very first call in this process and
+//          different calls overlap); for every case the set of distinct renderings seen by any thread is reported:
+//          SETS\t||\t<rendering>[\t&&\t<rendering>...]\t||\t...          (one ||-section per case; one rendering = deterministic)
 //   X\t<hex location>                    (no call) echoes; used to keep the line protocol aligned in warm-up blocks
 use std::sync::{Arc, Barrier};
 
@@ -179,12 +184,57 @@ fn thread_batch(parts: &[&str]) -> String {
   }
 }
 
+fn thread_cold(parts: &[&str]) -> String {
+  use std::collections::BTreeSet;
+  use std::sync::Mutex;
+  let n: usize = parts[1].parse().unwrap_or(16);
+  let iters: usize = parts[2].parse().unwrap_or(2);
+  let mut cases: Vec<(String, String, Vec<u8>)> = Vec::new();
+  for spec in &parts[3..] {
+    let f: Vec<&str> = spec.split(':').collect();
+    if f.len() != 3 {
+      return "?".to_string();
+    }
+    cases.push((f[0].to_string(), impl_driver::unhex_str(f[1]), impl_driver::unhex(f[2])));
+  }
+  let m = cases.len();
+  let cases = Arc::new(cases);
+  let seen: Arc<Vec<Mutex<BTreeSet<String>>>> = Arc::new((0..m).map(|_| Mutex::new(BTreeSet::new())).collect());
+  let barrier = Arc::new(Barrier::new(n));
+  let mut hs = Vec::new();
+  for t in 0..n {
+    let (cases, seen, b) = (cases.clone(), seen.clone(), barrier.clone());
+    hs.push(std::thread::spawn(move || {
+      b.wait();
+      for _ in 0..iters {
+        for k in 0..m {
+          let i = (k + t) % m;
+          let (w, s, d) = &cases[i];
+          let r = call(w, s, d);
+          seen[i].lock().unwrap().insert(r);
+        }
+      }
+    }));
+  }
+  for h in hs {
+    if h.join().is_err() {
+      return "THREAD-PANIC".to_string();
+    }
+  }
+  let sets: Vec<String> = seen
+    .iter()
+    .map(|s| s.lock().unwrap().iter().cloned().collect::<Vec<String>>().join("\t&&\t"))
+    .collect();
+  format!("SETS\t||\t{}", sets.join("\t||\t"))
+}
+
 fn dispatch(parts: &[&str]) -> String {
   match parts[0] {
     "J" if parts.len() >= 3 => thrice("J", parts),
     "C" if parts.len() >= 3 => thrice("C", parts),
     "T" if parts.len() >= 6 => threads(parts),
     "TB" if parts.len() >= 4 => thread_batch(parts),
+    "TC" if parts.len() >= 4 => thread_cold(parts),
     "X" => "X".to_string(),
     _ => "?".to_string(),
   }
